@@ -8,6 +8,7 @@ this obligation; the check then lets the correspondence run decide (and reports 
 `no-failing-input-found` if model and code still agree everywhere it looks).
 -/
 import Ggql.Props.C03
+import Ggql.Proofs.ExeDepth
 import Ggql.Model.ScanTables
 import Ggql.Gen.Tables
 import Ggql.Gen.Parse
@@ -18,7 +19,7 @@ def genTbl : ValueText.Tbl :=
   { charMap := Gen.charMap, numMap := Gen.numMap, spaceClass := Gen.spaceClass, tokenClass := Gen.tokenClass,
     numClass := Gen.numClass, escapes := Gen.escapeTable, unescapes := Gen.unescapeTable, terminators := Gen.numberTerminators }
 
-def genCM : CM := cmOfTbl genTbl []
+def genCM : CM := { cmOfTbl genTbl [] with depthLimit := Gen.maxParseDepth }
 
 /-- the function bodies the models were written against (hash of each, messages and comments stripped) -/
 def pinnedSkeleton : List (String × String) := [
@@ -30,11 +31,12 @@ def pinnedSkeleton : List (String × String) := [
   ("exeParser.readFragmentDef", "ac7947967256"),
   ("exeParser.readInline", "c937b7931829"),
   ("exeParser.readOp", "3f2c7946f8fe"),
-  ("exeParser.readSelectionSet", "633413140d11"),
+  ("exeParser.readSelectionSet", "355ecb6ffc3e"),
   ("exeParser.readVarDef", "c683f216d2b6"),
   ("exeParser.readVarDefs", "007f8ff5b513"),
   ("parseExe", "b2fc5513a9c5"),
   ("parseSDL", "5c0f8828856d"),
+  ("parser.deeper", "f95cc851b447"),
   ("parser.putBack", "53625e41ee42"),
   ("parser.readArgValue", "88c58bf573bb"),
   ("parser.readArgValues", "cdf8819b1f0b"),
@@ -46,8 +48,9 @@ def pinnedSkeleton : List (String × String) := [
   ("parser.readNumberToken", "f3b19f6d64a1"),
   ("parser.readString", "898da43fe809"),
   ("parser.readToken", "ef9998d985e1"),
-  ("parser.readType", "f46b11a601e7"),
-  ("parser.readValue", "bb751d2f2cd6"),
+  ("parser.readType", "08e7d55e1191"),
+  ("parser.readValue", "67b6dc0216a2"),
+  ("parser.shallower", "6a32e8f2f49b"),
   ("parser.skipBOM", "3748472419d4"),
   ("parser.skipSpace", "c52c2c490dec"),
   ("sdlParser.readArg", "1fd975e944de"),
@@ -118,5 +121,29 @@ theorem C03_current_hang (h : Gen.sdlEmptyTokenSpins = true) (n : Nat) :
 theorem C03_current_stray_refused (h : Gen.sdlEmptyTokenSpins = false) (n : Nat) :
     (parseSDL genCM { emptyTokenSpins := Gen.sdlEmptyTokenSpins } (n + 1) [125] .eof).2.oof = false := by
   rw [h]; exact (C03_fixed_stray genCM gen_brace_not_space gen_brace_not_token n).2
+
+/-! ### the stack clause on the current source (D03 repaired) -/
+
+/-- the scanners of this run have a nesting limit (`var MaxParseDepth`, `deeper()` at the four recursive
+constructs: read by the translator) -/
+theorem gen_depth_limited : Gen.maxParseDepth.isSome = true := by decide
+
+/-- **C03_value_depth_bounded_current.**  `ParseValue` on the current source never recurses deeper than
+`MaxParseDepth`, for every input. -/
+theorem C03_value_depth_bounded_current (l : Nat) (hl : Gen.maxParseDepth = some l) (bytes : List UInt8) (tail : Tail) :
+    (parseValue genCM bytes tail).2.maxDepth ≤ l :=
+  C03_value_depth_bounded genCM l hl bytes tail
+
+/-- **C03_request_depth_bounded_current.**  Parsing a request on the current source never recurses deeper than
+`MaxParseDepth`, for every input: the stack overflow of D03 cannot happen. -/
+theorem C03_request_depth_bounded_current (l : Nat) (hl : Gen.maxParseDepth = some l) (cfg : ExeCF.Cfg) (fuel : Nat)
+    (bytes : List UInt8) (tail : Tail) : (ExeCF.parseExe genCM cfg fuel bytes tail).2.maxDepth ≤ l :=
+  ExeCF.C03_request_depth_bounded genCM cfg l hl fuel bytes tail
+
+/-- the bound is attained: `[[[…` nested as deep as the limit allows stands exactly that deep (so `maxDepth`
+is not trivially 0), here for a limit of 3 -/
+example : (parseValue { genCM with depthLimit := some 3 } [91, 91, 91, 93, 93, 93] .eof).2.maxDepth = 3 ∧
+    (parseValue { genCM with depthLimit := some 3 } [91, 91, 91, 91, 93, 93, 93, 93] .eof).1 = some ⟨.parse, 1, 5⟩ := by
+  decide +kernel
 
 end Ggql.C03
